@@ -396,25 +396,27 @@ impl PublishBuilder {
         }
     }
 
-    async fn stream_at_least_once_inner(
+    // The packet is written and registered in this call, not when the returned future is
+    // polled; send window is checked by the caller in the same call
+    fn stream_at_least_once_inner(
         mut self,
         tx: pool::Sender<()>,
-    ) -> Result<(), SendPacketError> {
+    ) -> impl Future<Output = Result<(), SendPacketError>> {
         // packet id
         let idx = self.shared.set_publish_id(&mut self.packet);
 
         // send publish to client
         log::trace!("Publish (QoS1) to {:#?}", self.packet);
 
-        if tx.is_canceled() {
+        let rx = if tx.is_canceled() {
             Err(SendPacketError::StreamingCancelled)
         } else {
             let rx =
                 self.shared.wait_publish_response(idx, AckType::Publish, self.packet, None);
             let _ = tx.send(());
-
-            rx?.await.map(|_| ()).map_err(|_| SendPacketError::Disconnected)
-        }
+            rx
+        };
+        async move { rx?.await.map(|_| ()).map_err(|_| SendPacketError::Disconnected) }
     }
 }
 
